@@ -43,6 +43,7 @@ __docformat__ = 'epytext en'
 
 from typing import Iterable, List, Optional, Sequence, Set, cast
 import re
+import sys
 from docutils import nodes
 
 from docutils.core import publish_string
@@ -104,7 +105,10 @@ def parse_docstring(docstring: str,
         publish_string(docstring, writer=writer, reader=reader,
                        settings_overrides={'report_level':10000,
                                            'halt_level':10000,
-                                           'warning_stream':None})
+                                           'warning_stream':None,
+                                           # docutils refuses the whole text when a line is longer than that
+                                           # (10 000 by default) and nothing of the docstring would be shown.
+                                           'line_length_limit':sys.maxsize})
     finally:
         # docutils keeps the role set by a "default-role" directive in a process-wide table and
         # only resets it at the end of a successful parse: don't let it leak into the next docstrings.
